@@ -122,8 +122,10 @@ Print Assumptions c09_memory_order_obligations.
 (* tick() returns the incremented value, the idle sentinel is the largest 64-bit value and is what the scan starts from *)
 Theorem c09_tick_returns_new_version : tick_ret = tick_inc /\ tick_inc = 1.
 Proof. exact ep_tick_spec. Qed.
+Print Assumptions c09_tick_returns_new_version.
 Theorem c09_idle_is_max : SLOT_IDLE = 2 ^ 64 - 1 /\ lwm_init = SLOT_IDLE /\ unlock_value = SLOT_IDLE.
 Proof. exact ep_idle_spec. Qed.
+Print Assumptions c09_idle_is_max.
 
 (* store-buffer half, one-slot skeleton (EP/EPTsoModel.v): reader = load version; store slot; FENCE; load cell,
    writer = store cell; RMW tick; load slot, store buffers flushed by the memory system at arbitrary moments.
@@ -157,11 +159,13 @@ Theorem c09_litmus_no_entry_fence_refuted :
   exists sch, Verif.WM.TSO.final (Verif.EP.EPLitmus.litmus_state false true sch) = true /\
               Verif.WM.Litmus.epoch_bad (Verif.WM.TSO.result (Verif.EP.EPLitmus.litmus_state false true sch)) = true.
 Proof. exact Verif.EP.EPLitmus.litmus_no_entry_fence_refuted. Qed.
+Print Assumptions c09_litmus_no_entry_fence_refuted.
 Theorem c09_litmus_tick_relaxed_refuted :
   Verif.WM.Litmus.epoch_safe true false = false /\
   exists sch, Verif.WM.TSO.final (Verif.EP.EPLitmus.litmus_state true false sch) = true /\
               Verif.WM.Litmus.epoch_bad (Verif.WM.TSO.result (Verif.EP.EPLitmus.litmus_state true false sch)) = true.
 Proof. exact Verif.EP.EPLitmus.litmus_tick_relaxed_refuted. Qed.
+Print Assumptions c09_litmus_tick_relaxed_refuted.
 
 (* non-vacuity: a well-formed initial allocator; a reachable state with a reader holding object 0 inside its region
    while a collector that retired (0, tick 1) is scanning *)
